@@ -24,7 +24,7 @@ HERE = os.path.dirname(os.path.dirname(os.path.abspath(__file__)))
 SEEDED = os.path.join(HERE, "seeded")
 
 
-def run_one(sid: str, checks=None, tier="quick", procs=None, fast=False) -> dict:
+def run_one(sid: str, checks=None, tier="quick", procs=None, fast=False, record=True) -> dict:
     import re
 
     d = os.path.join(SEEDED, sid)
@@ -56,7 +56,9 @@ def run_one(sid: str, checks=None, tier="quick", procs=None, fast=False) -> dict
                                 "lines": lines[:12], "stderr_tail": p.stderr[-300:] if p.returncode not in (0, 1) else ""}
         out["detected_by"] = [c for c, v in out["checks"].items() if v["exit"] == 1]
         out["restricted_to_families"] = fams if fast else None
-        json.dump(out, open(os.path.join(d, f"result-{tier}.json"), "w"), indent=1)
+        if record and not (os.environ.get("VERIF_MODELS") or os.environ.get("VERIF_FAMILIES")
+                           or os.environ.get("VERIF_C02_FAMILIES")):  # restricted ad-hoc runs are not recorded
+            json.dump(out, open(os.path.join(d, f"result-{tier}.json"), "w"), indent=1)
         return out
     finally:
         shutil.rmtree(scratch, ignore_errors=True)
